@@ -1,7 +1,7 @@
 (* C03 — name references follow every rename and never change their referent.
    Property theorems only. Every theorem is closed by [exact] of a lemma proved elsewhere
    (Res/NameRefProofs.v, Res/RenameProofs.v, Res/C03Facts.v). *)
-From KV Require Import Res.BuildRefs Res.FsFacts Res.CsvFacts Res.NameRefProofs Res.RenameProofs Res.RewriteProofs Res.ProgressProofs Res.C03Facts.
+From KV Require Import Res.BuildRefs Res.FsFacts Res.CsvFacts Res.NameRefProofs Res.RenameProofs Res.RewriteProofs Res.ProgressProofs Res.BuildProofs Res.C03Facts.
 From KV Require Import Gen.NameRefRules Gen.FieldSpecs Res.NameRefRulesRef.
 
 (* ================= obligations over the tables regenerated from /repo ================= *)
@@ -322,6 +322,42 @@ Theorem C03_layering_unique :
       filter (name_kind_match x (get_name (r_node (fst pb)))) cands = [b].
 Proof. exact (fun cs nonstr prov m C H1 H2 j pb b _ => layering_unique cs nonstr prov m C H1 H2 j pb b). Qed.
 Print Assumptions C03_layering_unique.
+
+(* BUILD LEVEL (rename model followed by the name reference model = build_refs, Res/BuildRefs.v;
+   Res/Pipeline.v runs the same two models inside the integrated build).  [build_prov l hs] lists every leaf
+   of the layering with the renaming transformers of the kustomizations on its way (namespace, prefix,
+   suffix of each layer, innermost first, then the content hash); theorem build_names_prov
+   (Res/BuildProofs.v) shows the map just before FixBackReferences is exactly these leaves so transformed.
+   Then: a reference (scalar, not under "namespace", not roleRef/name) reached by a row of the referent's
+   kind, holding the ORIGINAL name of leaf j, that leaf being visible to the referrer and accepted by the
+   first two sieves and the namespace sieve, ends as leaf j's FINAL name, provided no other leaf
+   [may_have_been] called like leaf j originally or finally (original name or anything a sub-sequence of
+   its transformers makes of it -- the "no prefix/suffix extension of another along the chain" boolean).
+   build_refs = Ok out is equivalent to the first three premises (lemma build_refs_split).
+   This is the proved part of the DESIGN's C03_refs_follow; the full statement (only "original triples
+   unique") is refuted below. *)
+Theorem C03_refs_follow_build_partial :
+  forall cs nonstr l hs m rules out C,
+    gen_build_names cs nonstr l hs = Ok m ->
+    effective_rules gen_gvk_order_first gen_gvk_order_last gen_nameref_raw = Ok rules ->
+    nameref_transform cs nonstr rules m = Ok out ->
+    Forall leaf_ok (build_prov l hs) -> mapM (view cs) m = Ok C -> no_empty_prev C = true ->
+    forall i r r' org row fs flags cands j pb b a t s,
+      nth_error m i = Some r -> nth_error out i = Some r' -> org_id cs r = Ok org ->
+      In row rules -> In fs (nb_referrers row) -> gvk_is_selected (id_gvk org) (fs_gvk fs) = true ->
+      has_suffix "roleRef/name" (fs_path fs) = false ->
+      referencable cs m r = Ok flags -> mapM (view cs) (select_by flags m) = Ok cands ->
+      no_ns_key a -> reaches (path_splitter (fs_path fs)) a (r_node r) = true ->
+      get_addr a (r_node r) = Some (Scalar t s (get_name (r_node (fst pb)))) ->
+      is_null (Scalar t s (get_name (r_node (fst pb)))) = false ->
+      nth_error (build_prov l hs) j = Some pb -> nth_error C j = Some b -> nth_error flags j = Some true ->
+      name_kind_match (make_ctx cs r (fs_path fs) (nb_gvk row)) (get_name (r_node (fst pb))) b = true ->
+      namespace_sieve (make_ctx cs r (fs_path fs) (nb_gvk row)) b = true ->
+      (forall k p, k <> j -> nth_error (build_prov l hs) k = Some p ->
+                   may_have_been p (get_name (r_node (fst pb))) = false /\ may_have_been p (c_name b) = false) ->
+      exists t' s', get_addr a (r_node r') = Some (Scalar t' s' (c_name b)).
+Proof. exact refs_follow_build. Qed.
+Print Assumptions C03_refs_follow_build_partial.
 
 (* ================= what the faithful model refutes (each confirmed on the implementation) ================= *)
 
